@@ -19,7 +19,10 @@ int xv_threw; uint64_t xv_clock, xv_rmw_old; _Bool xv_cas_ok;
 #define XV_EXC_guard 3
 
 /* ------------------------------------------------------------------ shapes */
-#define NB 2                  /* buckets of the block under test: mask 0 or 1 */
+#ifndef XV_MASK
+#define XV_MASK 0             /* block->mask of the block under test: 0 (one bucket) or 1 (two buckets: the second one is a bystander) */
+#endif
+#define NB (XV_MASK + 1)
 #ifndef XV_L
 #define XV_L 2                /* extension chain length of the bucket under test, before the operation */
 #endif
@@ -56,11 +59,15 @@ struct unlocker { _Bool enabled; bstate_t state; bucket_t* locked_bucket; };
 struct vhm g_map; block_t g_blk; bucket_t g_bk[NB]; extension_bucket g_eb[XV_NEB]; struct node g_node[NN];
 uintptr_t g_eb_base;          /* address of g_eb[0]; allocate_block rounds it up to a multiple of sizeof(extension_bucket) */
 bucket_t* g_B;                /* the bucket under test (= bucket hash(key) & mask) */
-#define POOL_ITEM(p) (&g_eb[(p) / XV_EIC].items[(p) % XV_EIC])
+/* pointers are always selected among concrete addresses (cheap for cbmc), never computed from a symbolic index */
+#define POOL_ITEM_C(p) (&g_eb[(p) / XV_EIC].items[(p) % XV_EIC])        /* p: constant */
+static extension_item* pool_item(unsigned p) { for (unsigned i = 0; i < POOL; ++i) if (p == i) return POOL_ITEM_C(i); return 0; }
+#define POOL_ITEM(p) pool_item(p)
 static int pool_index(const extension_item* x) {        /* POOL if not a pool item */
-  for (int p = 0; p < POOL; ++p) if (x == POOL_ITEM(p)) return p;
+  for (int p = 0; p < POOL; ++p) if (x == POOL_ITEM_C(p)) return p;
   return POOL;
 }
+static struct node* node_at(unsigned i) { for (unsigned j = 0; j < NN; ++j) if (i == j) return &g_node[j]; return 0; }
 static int node_index(const struct node* n) { for (int i = 0; i < NN; ++i) if (n == &g_node[i]) return i; return NN; }
 
 /* ------------------------------------------------------------------ glue used by the lowered text */
@@ -79,12 +86,16 @@ uint64_t __CPROVER_uninterpreted_hash(uint64_t);
 #define XV_INIT_v(self, e) ((self)->v = (e))
 #define XV_INIT_guard(self, e) ((self)->guard = (e))
 /* free_extension_item's pointer arithmetic: linear addresses over the extension bucket array */
-static uintptr_t xv_item_addr(extension_item* p) { return g_eb_base + (uintptr_t)((char*)p - (char*)g_eb); }
+static uintptr_t xv_item_addr(extension_item* x) {
+  for (int p = 0; p < POOL; ++p) if (x == POOL_ITEM_C(p))
+    return g_eb_base + (p / XV_EIC) * sizeof(extension_bucket) + offsetof(extension_bucket, items) + (p % XV_EIC) * sizeof(extension_item);
+  return 0;
+}
 _Bool eb_at_ok = 1;
 static extension_bucket* xv_eb_at(uintptr_t a) {
   uintptr_t off = a - g_eb_base;
-  if (!(off % sizeof(extension_bucket) == 0 && off / sizeof(extension_bucket) < XV_NEB)) { eb_at_ok = 0; return &g_eb[0]; }
-  return &g_eb[off / sizeof(extension_bucket)];
+  for (int b = 0; b < XV_NEB; ++b) if (off == b * sizeof(extension_bucket)) return &g_eb[b];
+  eb_at_ok = 0; return &g_eb[0];
 }
 #define XV_ITEM_ADDR(p) xv_item_addr(p)
 #define XV_EB_AT(a) xv_eb_at(a)
@@ -135,7 +146,7 @@ static struct n_accessor nk_acc_make(n_vcell* v, int o) { struct n_accessor a; n
 static accessor xv_acc_any(void) {
   accessor a;
 #ifdef XV_NT
-  unsigned i = nondet_uint(); a.guard = (i < NN) ? &g_node[i] : 0;
+  a.guard = node_at(nondet_uint());
 #else
   a.v = nondet_u64();
 #endif
